@@ -52,16 +52,27 @@ def init_lemmas_run():
             "Lmax > 0": Lmax > 0,
             "Lmax^2 == r_d^2 - R^2 (horizon distance)": Lmax * Lmax == r * r - R2,
             "earth_rad_2 == R^2": R2 == R * R,
-            "Lmin > 0": Lmin > 0,
-            "Lmin < Lmax": Lmin < Lmax,
         }
-        lemmas = [
-            ("cos(alphaMin) > cos(alphaHorizon) = Lmax / r_d, sin(alphaMin) in (0, R / r_d)", z3.And(
-                core.sincos(aH - cfg.simulation.angle_from_limb)[1] * r > Lmax, core.sincos(aH - cfg.simulation.angle_from_limb)[0] > 0,
-                core.sincos(aH - cfg.simulation.angle_from_limb)[0] * r < R)),
-        ]
+        sA, cA = core.sincos(aH - cfg.simulation.angle_from_limb)
         A_ = Lmax * Lmax
-        claims["the bracket computed by __init__ is A Lmax - Lmax^3/3 - A Lmin + Lmin^3/3 on the real terms"] = br_code == A_ * Lmax - core.rv(Fr(1, 3)) * Lmax * Lmax * Lmax - A_ * Lmin + core.rv(Fr(1, 3)) * Lmin * Lmin * Lmin
+        G = harness.GenLemma
+        lemmas = [
+            ("cos(alphaMin) > cos(alphaHorizon) = Lmax / r_d, sin(alphaMin) in (0, R / r_d)", z3.And(cA * r > Lmax, sA > 0, sA * r < R)),
+            ("r_d - Lmax < R", r - Lmax < R),
+            G("r_d cos(alphaMin) - (r_d - R) > 0", r * cA - r + R > 0, premises=[cA * r > Lmax, r - Lmax < R, r > R, R > 0], abstract=[cA, Lmax]),
+            G("(r_d cos(alphaMin) - r_d + R)^2 >= R^2 - r_d^2 sin^2(alphaMin)", (r * cA - r + R) * (r * cA - r + R) >= R * R - r * r * sA * sA,
+              premises=[sA * sA + cA * cA == 1, cA <= 1, r > R, R > 0], abstract=[sA, cA]),
+        ]
+        circ = sA * sA + cA * cA == 1
+        lemmas += [
+            G("Lmin >= r_d - R (detector altitude: the nearest surface point is straight down)", Lmin >= r - R,
+              premises=[r * cA - r + R > 0, (r * cA - r + R) * (r * cA - r + R) >= R * R - r * r * sA * sA, circ], abstract=[sA, cA], whole_context=True, kind="claim"),
+            G("Lmin < Lmax", Lmin < Lmax, premises=[cA * r > Lmax, circ, Lmax * Lmax == r * r - R * R, Lmax > 0, sA * r < R, sA > 0], abstract=[sA, cA], whole_context=True, kind="claim"),
+            G("Lmin > 0", Lmin > 0, premises=[Lmin >= r - R, r > R], abstract=[Lmin], kind="claim"),
+            G("the bracket computed by __init__ is A Lmax - Lmax^3/3 - A Lmin + Lmin^3/3 on the real terms",
+              br_code == A_ * Lmax - core.rv(Fr(1, 3)) * Lmax * Lmax * Lmax - A_ * Lmin + core.rv(Fr(1, 3)) * Lmin * Lmin * Lmin,
+              premises=[Lmax * Lmax == r * r - R2], abstract=[Lmin, Lmax], kind="claim"),
+        ]
         sinmax = SV.of(g.sinOfMaxThetaTrSubV).term()
         claims["0 < sin(max cone angle) < 1"] = z3.And(sinmax > 0, sinmax < 1)
         claims["azimuth range is [-max_az/2, +max_az/2]"] = z3.And(SV.of(g.maxPhiS).term() == inp["max_az"] / 2, SV.of(g.minPhiS).term() == -inp["max_az"] / 2)
@@ -102,7 +113,7 @@ def _generalised(C, symbolic_det=False):
     ns, cfg, inp, g, aH = _init(C, symbolic_det)
     Lmin, Lmax = z3.Real("Lmin"), z3.Real("Lmax")
     r, R2 = SV.of(g.core_alt).term(), SV.of(g.earth_rad_2).term()
-    C.assume(Lmin > 0, Lmin < Lmax, Lmax > 0, Lmax * Lmax == r * r - R2)
+    C.assume(Lmin > 0, Lmin < Lmax, Lmax > 0, Lmax * Lmax == r * r - R2, Lmin >= r - SV.of(g.earth_radius).term())
     g.minLOSpathLen, g.maxLOSpathLen = SV(t=Lmin), SV(t=Lmax)
     inp = dict(inp, Lmin=Lmin, Lmax=Lmax)
     return ns, cfg, inp, g
@@ -148,6 +159,115 @@ def _skip_after_cubic(tag, where):
     return None
 
 
+def _sliced(C, symbolic_det=True):
+    """real __init__, then the real throw with the cubic section cut out and L generalised"""
+    ns, cfg, inp, g = _generalised(C, symbolic_det)
+    f, cut = gm.throw_slices(ns)
+    L = z3.Real("L")
+    C.assume(L >= inp["Lmin"], L <= inp["Lmax"], L > 0)  # proved for the real L by the cubic job
+    g.losPathLen = SymArray([SV(t=L)], "float")
+    U, us = gm.make_u(C)
+    with load.Tracer(watch=["throw_sliced"]) as tr:
+        f(g, U)
+    return ns, cfg, dict(inp, L=L), g, us, tr.locals["throw_sliced"], cut
+
+
+def _vec(lat_sc, lon_sc):
+    (sl, cl), (so, co) = lat_sc, lon_sc
+    return (cl * co, cl * so, sl)
+
+
+def spot_run():
+    def run(C):
+        ns, cfg, inp, g, us, loc, cut = _sliced(C)
+        L, r, R = inp["L"], SV.of(g.core_alt).term(), SV.of(g.earth_radius).term()
+        thS = SV.of(g.thetaS[0])
+        sT, cT = core.sincos(thS)
+        rx, ry, rs = (SV.of(loc[k][0]).term() for k in ("rxS", "ryS", "rsinlatS"))
+        latr, lonr = SV.of(loc["latS_rad"][0]), SV.of(loc["longS_rad"][0])
+        slat, clat = core.sincos(latr)
+        slon, clon = core.sincos(lonr)
+        D = _vec(core.sincos(g.detLat), core.sincos(g.detLong))
+        P = (clat * clon, clat * slon, slat)
+        latd, lond = SV.of(g.latS[0]).term(), SV.of(g.longS[0]).term()
+        unit = z3.And(sT >= 0, sT * sT + cT * cT == 1)
+        cl2 = clat * clat == rx * rx + ry * ry
+        direction = z3.Implies(rx * rx + ry * ry > 0, z3.And(P[0] == rx, P[1] == ry, P[2] == rs))
+        lawcos = z3.And(2 * R * r * cT == r * r + R * R - L * L, cT <= 1, cT >= -1)
+        dist = z3.Implies(rx * rx + ry * ry > 0, (r * D[0] - R * P[0]) * (r * D[0] - R * P[0]) + (r * D[1] - R * P[1]) * (r * D[1] - R * P[1]) + (r * D[2] - R * P[2]) * (r * D[2] - R * P[2]) == L * L)
+        DD = D[0] * D[0] + D[1] * D[1] + D[2] * D[2]
+        gg = rx * rx + ry * ry + rs * rs
+        Dg = D[0] * rx + D[1] * ry + D[2] * rs
+        Dunit, uvec, dot = DD == 1, gg == 1, Dg == cT
+        dist_g = (r * D[0] - R * rx) * (r * D[0] - R * rx) + (r * D[1] - R * ry) * (r * D[1] - R * ry) + (r * D[2] - R * rs) * (r * D[2] - R * rs)
+        G = harness.GenLemma
+        lem = [
+            ("cos(theta_S) from the law of cosines: 2 R r cos(theta_S) == r^2 + R^2 - L^2, |cos| <= 1", lawcos),
+            G("spot direction (rx, ry, rsin) is a unit vector", uvec, premises=[unit], abstract=[sT, cT], whole_context=True),
+            G("detector direction is a unit vector", Dunit, premises=[], abstract=[], whole_context=True),
+            G("detector direction . spot direction == cos(theta_S)", dot, premises=[unit], abstract=[sT, cT], whole_context=True),
+            G("cos(lat_S)^2 == rx^2 + ry^2", cl2, premises=[uvec], abstract=[rx, ry, rs], whole_context=True),
+            G("away from the poles the reported (lat_S, long_S) point in direction (rx, ry, rsin)", direction, premises=[uvec, cl2], abstract=[rx, ry, rs], whole_context=True),
+            G("expansion of |r_d D - R g|^2 (polynomial identity)", dist_g == r * r * DD - 2 * r * R * Dg + R * R * gg, premises=[], abstract=[rx, ry, rs, D[0], D[1], D[2]]),
+            G("|r_d D - R g|^2 == L^2 from the unit vectors, the dot product and the law of cosines", r * r * DD - 2 * r * R * Dg + R * R * gg == L * L,
+              premises=[DD == 1, Dg == cT, gg == 1, lawcos], abstract=[DD, Dg, gg, cT]),
+            G("ground spot at distance L from the detector: |r_d D - R P|^2 == L^2 (explicit ECEF vectors, away from the poles)", dist,
+              premises=[direction, dist_g == L * L], abstract=[P[0], P[1], P[2], rx, ry, rs, D[0], D[1], D[2]], kind="claim"),
+        ]
+        lem.append(G("spot on the Earth's surface: |P| == 1 (unit direction scaled by R)", P[0] * P[0] + P[1] * P[1] + P[2] * P[2] == 1,
+                     premises=[uvec, cl2], abstract=[rx, ry, rs], whole_context=True, kind="claim"))
+        claims = {
+            "latitude in [-90, 90] deg": z3.And(latd >= -90, latd <= 90),
+            "longitude in [0, 360] deg": z3.And(lond >= 0, lond <= 360),
+        }
+        return harness.Out(claims=claims, lemmas=lem, inputs=dict(inp, **{f"u{k+1}": us[k][0] for k in range(4)}), skip_defd=_skip_origin)
+
+    return run
+
+
+def _skip_origin(tag, where):
+    if _skip_bracket(tag, where):
+        return _skip_bracket(tag, where)
+    if tag == "atan2-origin":
+        return "np.arctan2(0, 0) is defined (0) in NumPy; the pole case is excluded from the direction claims explicitly"
+    return None
+
+
+def beta_run():
+    def run(C):
+        ns, cfg, inp, g, us, loc, cut = _sliced(C, symbolic_det=False)
+        L, r, R = inp["L"], SV.of(g.core_alt).term(), SV.of(g.earth_radius).term()
+        cNV = SV.of(g.costhetaNSubV[0]).term()
+        thNV = SV.of(loc["thetaNSubV"][0])
+        sNV, cNV2 = core.sincos(thNV)
+        sV, cV = core.sincos(SV.of(g.thetaTrSubV[0]))
+        sP, cP = core.sincos(SV.of(g.phiTrSubV[0]))
+        cTrN = SV.of(g.costhetaTrSubN[0]).term()
+        beta = SV.of(g.betaTrSubN[0])
+        thTrN = SV.of(g.thetaTrSubN[0])
+        # explicit vectors in the spot's local frame: n = (0,0,1); line of sight v at angle theta_NV from n;
+        # trajectory t at angle theta_TrV from v with azimuth phi_TrV about v
+        v = (sNV, z3.RealVal(0), cNV2)
+        e1 = (cNV2, z3.RealVal(0), -sNV)
+        e2 = (z3.RealVal(0), z3.RealVal(1), z3.RealVal(0))
+        t = tuple(cV * v[k] + sV * (cP * e1[k] + sP * e2[k]) for k in range(3))
+        cT_S = SV.of(loc["costhetaS"][0]).term()
+        claims = {
+            "cos(theta_NV) is the angle between the local vertical and the line of sight: R L cos(theta_NV) == r R cos(theta_S) - R^2": R * L * cNV == r * R * cT_S - R * R,
+            "the trajectory vector built from (theta_TrV, phi_TrV) about the line of sight is a unit vector": t[0] * t[0] + t[1] * t[1] + t[2] * t[2] == 1,
+            "cos(theta_TrN) == trajectory . local vertical (explicit vectors)": cTrN == t[2],
+            "emergence angle == 90 deg - angle(trajectory, vertical): beta(rad) + theta_TrN == pi/2 and cos(theta_TrN) is that dot product": z3.And(
+                beta.rad + thTrN.t == PI / 2, core.sincos(thTrN)[1] == t[2]),
+            "kept exactly when upward-going (trajectory . vertical >= 0) and beta < 42 deg": core._b(SV.of(g.event_mask[0])).term() == z3.And(t[2] >= 0, beta.t < 42),
+            "theta_TrV is the inverse-CDF image of u1: sin^2(theta_TrV) == u1 sin^2(theta_max)": sV * sV == us[0][0] * SV.of(g.sinOfMaxThetaTrSubV).term() * SV.of(g.sinOfMaxThetaTrSubV).term(),
+            "phi_TrV == 2 pi u2": SV.of(g.phiTrSubV[0]).term() == 2 * PI * us[1][0],
+            "phi_S == phi_min + (phi_max - phi_min) u3": SV.of(g.phiS[0]).term() == SV.of(g.minPhiS).term() + (SV.of(g.maxPhiS).term() - SV.of(g.minPhiS).term()) * us[2][0],
+        }
+        return harness.Out(claims=claims, inputs=dict(inp, **{f"u{k+1}": us[k][0] for k in range(4)}), skip_defd=_skip_origin)
+
+    return run
+
+
 def job_init(tier):
     return harness.run_job("RegionGeom.__init__ lemmas", init_lemmas_run(), timeout_ms=120000 if tier == "quick" else 600000, second=(tier == "thorough"))
 
@@ -161,8 +281,17 @@ def job_bracket(tier):
     return harness.run_job("normalisation bracket", bracket_run(), timeout_ms=60000)
 
 
+def job_spot(tier):
+    return harness.run_job("throw: ground spot (ENU -> ECEF)", spot_run(), timeout_ms=60000 if tier == "quick" else 600000, second=(tier == "thorough"), prune_timeout_ms=4000)
+
+
+def job_beta(tier):
+    return harness.run_job("throw: emergence angle and validity mask", beta_run(), timeout_ms=60000 if tier == "quick" else 600000, second=(tier == "thorough"), prune_timeout_ms=4000)
+
+
 def jobs(tier, seed):
-    return [("init", "job_init", {"tier": tier}), ("bracket", "job_bracket", {"tier": tier}), ("cubic", "job_cubic", {"tier": tier})]
+    return [("init", "job_init", {"tier": tier}), ("bracket", "job_bracket", {"tier": tier}), ("cubic", "job_cubic", {"tier": tier}),
+            ("spot", "job_spot", {"tier": tier}), ("beta", "job_beta", {"tier": tier})]
 
 
 def replay(v):
